@@ -106,6 +106,38 @@ theorem _root_.KafVerif.C44.read_seg_replica_failing (s : State) (k : Nat) (r : 
   unfold dualReadSeg Bucket.readSeg
   simp [h]
 
+/-! ### reads carry no cross-request state -/
+
+/-- **A read depends only on its own request**: the result of a dual read of `(k, r)` is determined by
+what the two buckets answer for exactly that key and range — no other key, no other range, no other
+(earlier or concurrent) request enters.  (The code keeps no state between reads; the concurrent run of
+the check validates that assumption on the implementation.) -/
+theorem _root_.KafVerif.C44.read_depends_only_on_own_request (s s' : State) (k : Nat) (r : Option Rng)
+    (hrep : s.rep.readSeg k r = s'.rep.readSeg k r) (hpri : s.pri.readSeg k r = s'.pri.readSeg k r) :
+    dualReadSeg s k r = dualReadSeg s' k r := by
+  unfold dualReadSeg; rw [hrep, hpri]
+
+/-- … and those answers depend only on the object stored under `k` and the fault flag of `k`. -/
+theorem _root_.KafVerif.C44.read_depends_only_on_own_key (s s' : State) (k : Nat) (r : Option Rng)
+    (h1 : s.rep.seg k = s'.rep.seg k) (h2 : s.rep.failing k = s'.rep.failing k)
+    (h3 : s.pri.seg k = s'.pri.seg k) (h4 : s.pri.failing k = s'.pri.failing k) :
+    dualReadSeg s k r = dualReadSeg s' k r := by
+  apply KafVerif.C44.read_depends_only_on_own_request <;> simp [Bucket.readSeg, h1, h2, h3, h4]
+
+/-- a batch of (concurrent) reads of one state: every read is answered independently -/
+def dualReadBatch (s : State) (reqs : List (Nat × Option Rng)) : List (GoResult Bytes) :=
+  reqs.map fun q => dualReadSeg s q.1 q.2
+
+/-- **Every read of a concurrent batch gets the primary's bytes for ITS OWN range** (same key, same
+start, different end included). -/
+theorem _root_.KafVerif.C44.batch_reads_match (s : State) (hc : Consistent s) (hp : PrimaryHealthy s)
+    (reqs : List (Nat × Option Rng)) :
+    dualReadBatch s reqs = reqs.map fun q => s.pri.readSeg q.1 q.2 := by
+  unfold dualReadBatch
+  apply List.map_congr_left
+  intro q _
+  exact KafVerif.C44.read_seg_match s hc hp q.1 q.2
+
 /-! ### (2) history level -/
 
 theorem consistent_step (s : State) (op : Op) (hc : Consistent s) (hs : Safe s op) : Consistent (step s op) := by
@@ -246,5 +278,7 @@ example : SafeRun State.init [.upSeg 1 [1, 2, 3], .upSeg 2 [9], .replSeg 1, .rFa
   simp [SafeRun, Safe, step, upd, State.init, Bucket.empty]
 example : dualReadSeg (run [.upSeg 1 [1, 2, 3], .upSeg 2 [9], .replSeg 1, .rFail 1 true]) 1 (some ⟨1, 5⟩) = .ok [2, 3] := by decide
 example : dualReadSeg (run [.upSeg 1 [1, 2, 3], .replSeg 1]) 1 (some ⟨3, 5⟩) = .err := by decide
+example : dualReadBatch (run [.upSeg 1 [1, 2, 3, 4, 5, 6]]) [(1, some ⟨0, 2⟩), (1, some ⟨0, 4⟩), (1, none)] =
+    [.ok [1, 2, 3], .ok [1, 2, 3, 4, 5], .ok [1, 2, 3, 4, 5, 6]] := by decide
 
 end KafVerif.DualS3
